@@ -14,6 +14,7 @@ CONSTANTS
   ShareEffect = "readonly"
   RADS = {8}
   GMS = {64,128}
+  TableEnds = "nearest"
   Slicing = "layer"
   Export = TRUE
 INVARIANT LevelsStrictlyDecreasing
@@ -24,6 +25,7 @@ INVARIANT StepRelation
 INVARIANT MixAlignedWithLayers
 INVARIANT DensityIdealGas
 INVARIANT OneEntryPerLayer
+INVARIANT TabulatedTemperatureAligned
 INVARIANT FitsInv
 CONSTRAINT Emit
 CHECK_DEADLOCK FALSE
